@@ -2,7 +2,11 @@
 
 package bal_slb
 
-import "github.com/bfenetworks/bfe/bfe_balance/backend"
+import (
+	"time"
+
+	"github.com/bfenetworks/bfe/bfe_balance/backend"
+)
 
 // VerifC01Backends returns the backends of brr in list order (C01: SetAvail on not yet picked backends).
 func VerifC01Backends(brr *BalanceRR) []*backend.BfeBackend {
@@ -11,6 +15,33 @@ func VerifC01Backends(brr *BalanceRR) []*backend.BfeBackend {
 	out := make([]*backend.BfeBackend, 0, len(brr.backends))
 	for _, b := range brr.backends {
 		out = append(out, b.backend)
+	}
+	return out
+}
+
+// VerifC01SetElapsed moves the slow-start start time of the backend with the given port so that
+// `elapsed` has passed since the ramp began (clock seam for updateSlowStart, which uses time.Since).
+func VerifC01SetElapsed(brr *BalanceRR, port int, elapsed time.Duration) {
+	brr.Lock()
+	defer brr.Unlock()
+	for _, b := range brr.backends {
+		if b.backend.Port == port {
+			b.weightSS.startTime = time.Now().Add(-elapsed)
+		}
+	}
+}
+
+// VerifC01Weights returns (weight, current, inSlowStart) per backend in list order (diagnostics).
+func VerifC01Weights(brr *BalanceRR) [][3]int {
+	brr.Lock()
+	defer brr.Unlock()
+	var out [][3]int
+	for _, b := range brr.backends {
+		ss := 0
+		if b.inSlowStart {
+			ss = 1
+		}
+		out = append(out, [3]int{b.weight, b.current, ss})
 	}
 	return out
 }
